@@ -711,6 +711,14 @@ func (env *Env) call(x *Expr) Val {
 		}
 		efail("jsontag: %s has no field %s", x.Args[0].Name, x.Args[1].Name)
 		return Val{}
+	case "fieldof":
+		// fieldof(p): the field class ("T.f") a pointer points at, "" if it is not a field of a module struct
+		a := env.eval(x.Args[0])
+		cls := ""
+		if r := a.ref(0); r != nil && r.Loc != nil {
+			cls = e.fieldClass(r.Loc)
+		}
+		return Val{T: types.Typ[types.String], L: []string{e.strConst(cls)}}
 	case "infunc":
 		// infunc("f|g"): the site lies in f or g (or in code inlined into them)
 		if len(x.Args) != 1 || x.Args[0].Op != "str" {
